@@ -9,6 +9,7 @@
 package main
 
 import (
+	"bufio"
 	"bytes"
 	"errors"
 	"fmt"
@@ -21,6 +22,7 @@ import (
 
 	"google.golang.org/protobuf/proto"
 
+	"github.com/mutagen-io/mutagen/pkg/encoding"
 	"github.com/mutagen-io/mutagen/pkg/synchronization/rsync"
 
 	"verif/harness/internal/vlib"
@@ -190,43 +192,174 @@ func faultCase(c *vlib.Ctx, shape string, L int, in input, calls0, failAt int, m
 	}
 }
 
+
+// ---------------------------------------------------------------------------
+// sequences of calls on ONE engine (engines are re-used; what a call emits must not
+// depend on what happened in earlier calls, including calls whose transmitter failed)
+
+type call struct {
+	in     input
+	kind   string // "stream": Engine.Deltify with the (possibly failing) transmitter; "bytes": Engine.DeltifyBytes
+	failAt int
+	mode   string
+}
+
+func (k call) enc() map[string]any {
+	m := k.in.enc()
+	m["kind"], m["failAt"], m["mode"] = k.kind, k.failAt, k.mode
+	return m
+}
+
+func sigEnc(sig *rsync.Signature) map[string]any {
+	return map[string]any{"bs": int(sig.BlockSize), "lbs": int(sig.LastBlockSize), "n": len(sig.Hashes)}
+}
+
+// seqCase runs the calls one after the other on one rsync.Engine created for the sequence:
+// BytesSignature, Deltify / DeltifyBytes and (after a failure-free call) PatchBytes all share it.
+func seqCase(c *vlib.Ctx, shape string, calls []call) {
+	e := rsync.NewEngine()
+	var ins, outs []any
+	faultedEarlier, nontrivial := false, false
+	for _, k := range calls {
+		sig := e.BytesSignature(k.in.base, k.in.bs)
+		f := &faulty{failAt: k.failAt, persistent: k.mode == "persistent"}
+		var delivered []*rsync.Operation
+		var err error
+		if k.kind == "bytes" {
+			delivered = e.DeltifyBytes(k.in.target, sig, k.in.md)
+			f.calls = len(delivered)
+		} else {
+			err = e.Deltify(bytes.NewReader(k.in.target), sig, k.in.md, func(o *rsync.Operation) error {
+				if f.next() {
+					return errInjected
+				}
+				delivered = append(delivered, proto.Clone(o).(*rsync.Operation))
+				return nil
+			})
+		}
+		out := map[string]any{"sig": sigEnc(sig), "calls": f.calls, "nfailed": f.nfailed, "err": errStr(err),
+			"ops": encOps(delivered), "patched": []int{}, "patchErr": ""}
+		if f.nfailed == 0 && err == nil {
+			patched, perr := e.PatchBytes(k.in.base, sig, delivered)
+			out["patched"], out["patchErr"] = ints(patched), errStr(perr)
+		}
+		if faultedEarlier {
+			nontrivial = true
+		}
+		if f.nfailed > 0 {
+			faultedEarlier = true
+		}
+		ins = append(ins, k.enc())
+		outs = append(outs, out)
+	}
+	rec := map[string]any{"ev": "Seq", "shape": shape, "in": map[string]any{"calls": ins}, "outs": outs}
+	c.Emit(rec)
+	c.Eval()
+	c.TraceDone()
+	if nontrivial {
+		c.NonTrivial(rec["in"])
+	}
+	if len(calls) == 2 && calls[0].failAt == 1 && len(calls[0].in.target) == 2 && len(calls[1].in.base) == 2 {
+		c.Sample(rec)
+	}
+}
+
+// follow-up calls: unchanged targets, block-only deltas, mixed deltas
+var followUps = []input{
+	{[]byte("ab"), []byte("ab"), 1, 1},
+	{[]byte("abba"), []byte("abba"), 2, 2},
+	{[]byte("aab"), []byte("aab"), 2, 3},
+	{[]byte("ab"), []byte("ba"), 1, 1},
+	{[]byte("abb"), []byte("abab"), 2, 1},
+	{[]byte("ab"), []byte("bab"), 1, 2},
+	{[]byte("abab"), []byte("bbabaab"), 2, 1},
+	{[]byte{}, []byte("ab"), 1, 1},
+}
+
+func seqCases(c *vlib.Ctx, L, nrand int) {
+	seqs := seqsUpTo(L)
+	n := 0
+	for _, b := range seqs {
+		for _, t := range seqs {
+			for bs := 1; bs <= L; bs++ {
+				for _, md := range []uint64{1, 2} {
+					in := input{b, t, uint64(bs), md}
+					calls0, _, _, _, _ := deltify(in, 0, "none")
+					for at := 0; at <= calls0; at++ {
+						for _, mode := range []string{"once", "persistent"} {
+							if at == 0 && mode == "persistent" {
+								continue
+							}
+							first := call{in, "stream", at, mode}
+							if at == 0 {
+								first.mode = "none"
+							}
+							for fi, fu := range followUps {
+								kind := []string{"bytes", "stream"}[(n+fi)%2]
+								seqCase(c, "small", []call{first, {fu, kind, 0, "none"}})
+							}
+							// three calls: fault, another (possibly faulted) call, then a follow-up
+							second := call{input{t, b, uint64(bs), md}, "stream", 1 + n%2, "once"}
+							seqCase(c, "small", []call{first, second, {followUps[n%len(followUps)], "bytes", 0, "none"}})
+							n++
+						}
+					}
+				}
+			}
+		}
+	}
+	for i := 0; i < nrand; i++ {
+		var calls []call
+		for k := 2 + c.Rand.Intn(2); k > 0; k-- {
+			in := randomInput(c.Rand, false)
+			calls0, _, _, _, _ := deltify(in, 0, "none")
+			k2 := call{in, "stream", 0, "none"}
+			if calls0 > 0 && c.Rand.Intn(3) != 0 {
+				k2.failAt, k2.mode = 1+c.Rand.Intn(calls0), []string{"once", "persistent"}[c.Rand.Intn(2)]
+			} else if c.Rand.Intn(2) == 0 {
+				k2.kind = "bytes"
+			}
+			calls = append(calls, k2)
+		}
+		seqCase(c, "rand", calls)
+	}
+}
+
 // ---------------------------------------------------------------------------
 // rsync.Transmit into an encoding receiver over a failing encoder
 
 type file struct {
 	base, target []byte
 	bs           uint64
+	missing      bool // the sender cannot open it (it does not exist in the sender's root)
 }
 
+// failingEncoder is an rsync.Encoder like the remote endpoint's (a real ProtobufEncoder writing
+// the byte stream) whose Encode fails at the prescribed calls without writing anything.
 type failingEncoder struct {
-	f    *faulty
-	wire []*rsync.Transmission
+	f      *faulty
+	stream bytes.Buffer
+	enc    *encoding.ProtobufEncoder
 }
 
 func (e *failingEncoder) Encode(t *rsync.Transmission) error {
 	if e.f.next() {
 		return errInjected
 	}
-	e.wire = append(e.wire, proto.Clone(t).(*rsync.Transmission))
-	return nil
+	return e.enc.Encode(t)
 }
 func (e *failingEncoder) Finalize() error { return nil }
 
-// queueDecoder hands the transmissions that got through to the real receiver side.
-type queueDecoder struct {
-	q []*rsync.Transmission
+// streamDecoder is an rsync.Decoder like the remote endpoint's: a real ProtobufDecoder on the bytes that got through.
+type streamDecoder struct {
+	dec *encoding.ProtobufDecoder
 }
 
-func (d *queueDecoder) Decode(t *rsync.Transmission) error {
-	if len(d.q) == 0 {
-		return io.ErrUnexpectedEOF
-	}
-	proto.Reset(t)
-	proto.Merge(t, d.q[0])
-	d.q = d.q[1:]
-	return nil
+func newStreamDecoder(b []byte) *streamDecoder {
+	return &streamDecoder{encoding.NewProtobufDecoder(bufio.NewReader(bytes.NewReader(b)))}
 }
-func (d *queueDecoder) Finalize() error { return nil }
+func (d *streamDecoder) Decode(t *rsync.Transmission) error { return d.dec.Decode(t) }
+func (d *streamDecoder) Finalize() error                    { return nil }
 
 type memSink struct {
 	files map[string]*bytes.Buffer
@@ -244,7 +377,7 @@ func (s *memSink) Sink(path string) (io.WriteCloser, error) {
 func encFiles(fs []file) []any {
 	var out []any
 	for _, f := range fs {
-		out = append(out, map[string]any{"base": ints(f.base), "target": ints(f.target), "bs": int(f.bs)})
+		out = append(out, map[string]any{"base": ints(f.base), "target": ints(f.target), "bs": int(f.bs), "missing": f.missing})
 	}
 	return out
 }
@@ -263,8 +396,10 @@ func transmitRun(c *vlib.Ctx, fs []file, failAt int, mode string) (rec map[strin
 	for i, f := range fs {
 		p := fmt.Sprintf("f%d", i)
 		paths = append(paths, p)
-		if err := os.WriteFile(filepath.Join(src, p), f.target, 0o644); err != nil {
-			vlib.Fatal("%v", err)
+		if !f.missing {
+			if err := os.WriteFile(filepath.Join(src, p), f.target, 0o644); err != nil {
+				vlib.Fatal("%v", err)
+			}
 		}
 		if err := os.WriteFile(filepath.Join(dst, p), f.base, 0o644); err != nil {
 			vlib.Fatal("%v", err)
@@ -272,7 +407,9 @@ func transmitRun(c *vlib.Ctx, fs []file, failAt int, mode string) (rec map[strin
 		sigs = append(sigs, e.BytesSignature(f.base, f.bs))
 	}
 	enc := &failingEncoder{f: &faulty{failAt: failAt, persistent: mode == "persistent"}}
+	enc.enc = encoding.NewProtobufEncoder(&enc.stream)
 	err := rsync.Transmit(src, paths, sigs, rsync.NewEncodingReceiver(enc))
+	through := append([]byte{}, enc.stream.Bytes()...)
 
 	// the receiving side of the same stream
 	sink := &memSink{files: map[string]*bytes.Buffer{}}
@@ -280,7 +417,7 @@ func transmitRun(c *vlib.Ctx, fs []file, failAt int, mode string) (rec map[strin
 	if rerr != nil {
 		vlib.Fatal("NewReceiver: %v", rerr)
 	}
-	recvErr := rsync.DecodeToReceiver(&queueDecoder{q: append([]*rsync.Transmission{}, enc.wire...)}, uint64(len(paths)), recv)
+	recvErr := rsync.DecodeToReceiver(newStreamDecoder(through), uint64(len(paths)), recv)
 	var sunk []any
 	for _, p := range paths {
 		if b, ok := sink.files[p]; ok {
@@ -289,12 +426,15 @@ func transmitRun(c *vlib.Ctx, fs []file, failAt int, mode string) (rec map[strin
 			sunk = append(sunk, []int{-1}) // never sunk
 		}
 	}
-	var wire []any
-	for _, t := range enc.wire {
-		wire = append(wire, map[string]any{"done": t.Done, "op": encOp(t.Operation)})
-	}
-	if wire == nil {
-		wire = []any{}
+	// tap: everything that got through, decoded independently of the receiver
+	wire := []any{}
+	tap := newStreamDecoder(through)
+	for {
+		t := &rsync.Transmission{}
+		if tap.Decode(t) != nil {
+			break
+		}
+		wire = append(wire, map[string]any{"done": t.Done, "op": encOp(t.Operation), "err": errStr(errors.New(t.Error))})
 	}
 	rec = map[string]any{
 		"ev": "Transmit", "in": map[string]any{"files": encFiles(fs), "failAt": failAt, "mode": mode},
@@ -476,6 +616,8 @@ func run(c *vlib.Ctx) error {
 		for i := 0; i < nbig; i++ {
 			deltaCase(c, "rand", 0, randomInput(c.Rand, true))
 		}
+		// one engine re-used across calls, with transmit failures in earlier calls
+		seqCases(c, argInt(c, "LS", 2), argInt(c, "seqrand", 60))
 	case "C20":
 		c.Emit(map[string]any{"ev": "Begin", "what": "Fault", "L": L})
 		for _, b := range seqs {
@@ -513,22 +655,40 @@ func run(c *vlib.Ctx) error {
 			nf := 1 + c.Rand.Intn(3)
 			var fs []file
 			for k := 0; k < nf; k++ {
-				fs = append(fs, file{small[c.Rand.Intn(len(small))], small[c.Rand.Intn(len(small))], uint64(1 + c.Rand.Intn(LT))})
+				if c.Rand.Intn(6) == 0 {
+					fs = append(fs, file{nil, nil, 1, true})
+					continue
+				}
+				fs = append(fs, file{small[c.Rand.Intn(len(small))], small[c.Rand.Intn(len(small))], uint64(1 + c.Rand.Intn(LT)), false})
 			}
 			transmitCases(c, "small", fs, 1000)
+		}
+		// batches in which a file that cannot be opened precedes ordinary files (the re-used Transmission)
+		tiny := seqsUpTo(argInt(c, "LM", 2))
+		for _, b := range tiny {
+			for _, t := range tiny {
+				if len(t) == 0 && len(b) == 0 {
+					continue
+				}
+				f := file{b, t, uint64(1 + (len(b)+len(t))%2), false}
+				transmitCases(c, "missing", []file{{nil, nil, 1, true}, f}, 1000)
+				if len(b) == len(t) {
+					transmitCases(c, "missing", []file{f, {nil, nil, 1, true}, {t, b, 1, false}}, 1000)
+				}
+			}
 		}
 		for i := 0; i < argInt(c, "txrand", 12); i++ {
 			nf := 1 + c.Rand.Intn(3)
 			var fs []file
 			for k := 0; k < nf; k++ {
 				in := randomInput(c.Rand, false)
-				fs = append(fs, file{in.base, in.target, in.bs})
+				fs = append(fs, file{in.base, in.target, in.bs, false})
 			}
 			transmitCases(c, "rand", fs, argInt(c, "txfaults", 3))
 		}
 		for i := 0; i < argInt(c, "txbig", 1); i++ {
 			in := randomInput(c.Rand, true)
-			transmitCases(c, "rand", []file{{in.base, in.target, 1024}}, 1)
+			transmitCases(c, "rand", []file{{in.base, in.target, 1024, false}}, 1)
 		}
 	default:
 		return fmt.Errorf("driver rsync does not serve property %s", c.Prop)
@@ -576,12 +736,22 @@ func replay(c *vlib.Ctx) error {
 		mode, _ := in["mode"].(string)
 		faultCase(c, shape, L, input{toBytes(in["base"]), toBytes(in["target"]), uint64(toInt(in["bs"])), uint64(toInt(in["md"]))},
 			toInt(begin["calls0"]), toInt(in["failAt"]), mode)
+	case "Seq":
+		var calls []call
+		for _, cv := range in["calls"].([]any) {
+			m := cv.(map[string]any)
+			kind, _ := m["kind"].(string)
+			mode, _ := m["mode"].(string)
+			calls = append(calls, call{input{toBytes(m["base"]), toBytes(m["target"]), uint64(toInt(m["bs"])), uint64(toInt(m["md"]))}, kind, toInt(m["failAt"]), mode})
+		}
+		seqCase(c, shape, calls)
 	case "Transmit":
 		mode, _ := in["mode"].(string)
 		var fs []file
 		for _, f := range in["files"].([]any) {
 			m := f.(map[string]any)
-			fs = append(fs, file{toBytes(m["base"]), toBytes(m["target"]), uint64(toInt(m["bs"]))})
+			missing, _ := m["missing"].(bool)
+			fs = append(fs, file{toBytes(m["base"]), toBytes(m["target"]), uint64(toInt(m["bs"])), missing})
 		}
 		rec, _ := transmitRun(c, fs, toInt(in["failAt"]), mode)
 		rec["shape"] = shape
